@@ -165,6 +165,8 @@ func classifyBuild(out string) string {
 	switch {
 	case strings.Contains(out, "does not implement") || strings.Contains(out, "missing method"):
 		return "not-implemented"
+	case strings.Contains(out, "has no field or method"):
+		return "no-such-method"
 	case strings.Contains(out, "duplicate case"):
 		return "duplicate-case"
 	case strings.Contains(out, "redeclared") || strings.Contains(out, "no new variables") || strings.Contains(out, "already declared"):
